@@ -52,3 +52,27 @@ func VerifRegisterBurst(limit uint32, n int, scopeName string) (registered int, 
 	l.mu.Unlock()
 	return registered, st.Downstream.CxTotal.Value(), st.Downstream.CxRestricted.Value(), st.Downstream.CxActive.Value()
 }
+
+// VerifRegisterAfterStop stops a listener (whose Serve has not begun) and then offers it a
+// connection, as a handler that was spawned just before Stop would. It reports whether the
+// connection was registered.
+func VerifRegisterAfterStop(scopeName string) bool {
+	cfg := &service.Listener{Address: &common.Address{Ip: "127.0.0.1", Port: 1}}
+	st := NewStats(stats.CreateScope(scopeName))
+	li, err := NewListener(cfg, st.Downstream, log.New("[verif]"), nil)
+	if err != nil {
+		return false
+	}
+	l := li.(*listener)
+	ln, err := net.Listen("tcp", "127.0.0.1:0")
+	if err != nil {
+		return false
+	}
+	defer ln.Close()
+	l.ln = ln
+	l.Stop()
+	a, b := net.Pipe()
+	defer a.Close()
+	defer b.Close()
+	return l.addConn(&verifConn{a})
+}
